@@ -63,7 +63,8 @@ Definition feq (a b : f64) := match b64_compare a b with Some Eq => true | _ => 
 (** * Equality *)
 (** SPEC: IEEE equality *)
 Definition eq_spec (a b : f64) : bool := feq a b.
-(** what val.rs does today: `(a - b).abs() <= f64::EPSILON` *)
+(** what val.rs did before ce0d2fe: `(a - b).abs() <= f64::EPSILON` (kept: the translator still
+    recognises that form and the model then follows it) *)
 Definition eq_eps (a b : f64) : bool := fle (b64_abs (b64_minus mode_NE a b)) f_epsilon.
 (** IMPL-MODEL of [primitive_equals] on numbers (shape read from the source) *)
 Definition eq_impl (a b : f64) : bool := if num_eq_epsilon then eq_eps a b else feq a b.
@@ -166,7 +167,9 @@ Definition shr_spec (a b : f64) : option f64 :=
 Definition bnot_spec (a : f64) : option f64 :=
   if safe a then num_new (of_Z (- trunc_Z a - 1)) else None.
 
-(** input classes on which today's code leaves the spec (known findings) *)
+(** input classes on which the code leaves / left the spec.  [known_shr_count] and [known_bnot]
+    are empty since 8b733a9 (the regenerated flags make them [false]), [known_eps] is no longer
+    consulted since ce0d2fe; [known_shl_neg] is a standing known finding. *)
 Definition known_shl_neg (a b : f64) : bool :=      (* negative base whose shift overflows *)
   safe a && safe b && negb (flt b f_zero) && (trunc_Z a * 2 ^ (trunc_Z b mod 64) <? i64_min).
 Definition known_shr_count (a b : f64) : bool :=    (* count above the safe-integer range *)
@@ -175,9 +178,8 @@ Definition known_bnot (a : f64) : bool :=           (* operand outside the safe-
   negb bitnot_checked && negb (safe a).
 
 (** * std.sort / std.uniq / std.set / std.setMember / std.minArray / std.maxArray on numbers *)
-(** sort.rs sorts number arrays with [sort_unstable_by_key] under [Ord for NumValue]; any
-    correct sort gives the same list up to the order of [cmp]-equal elements (only +0/-0).
-    Modelled as insertion sort. *)
+(** sort.rs sorts number arrays with the stable [sort_by_key] under [Ord for NumValue]; every
+    stable sort gives the same list.  Modelled as (stable) insertion sort. *)
 Fixpoint insert (x : f64) (l : list f64) : list f64 :=
   match l with
   | [] => [x]
